@@ -404,6 +404,18 @@ fn embed(rng: &mut Rng, sents: &[String], digits: &str, word: &str, origin: &'st
         follow.push(' ');
         follow.push_str(&words[at..].join(" "));
     }
+    // OTHER (correct) ordinals in the same document, before and / or after the one under test:
+    // `condense_number_suffixes` merges several (number, suffix) pairs in one pass over the token
+    // vector, and the index arithmetic of that pass only shows with two or more of them
+    match rng.below(6) {
+        0 => prefix = format!("On the 1st and the 22nd, {}", prefix),
+        1 => follow.push_str(" and the 2nd of the 103rd"),
+        2 => {
+            prefix = format!("The 3rd time, {}", prefix);
+            follow.push_str(" or the 11th");
+        }
+        _ => {}
+    }
     Case { prefix, digits: digits.to_string(), word: word.to_string(), follow, origin }
 }
 
